@@ -22,7 +22,7 @@ Definition enc (e : event) : list N :=
    nlen (stack c); nlen (states c); nlen (parsed c); fst (hsnap c); snd (hsnap c)].
 
 (* input: configured depth limit, top-level items in execution order, truncated? *)
-Record input := { i_md : N; i_tops : list call; i_trunc : bool }.
+Record input := { i_md : N; i_tops : list top; i_trunc : bool }.
 
 Definition obs := (bool * list (list N))%type.
 
@@ -35,9 +35,11 @@ Definition obs_eqb (m o : obs) : bool :=
   if fst m then nl_eqb (firstn (length (snd o)) (snd m)) (snd o) else nl_eqb (snd m) (snd o).
 
 (* guard conjuncts: 1 = F08a (true nesting within the limit), 2 = F08b (no fall-through),
-   3 = no empty schema name reaches the tracker (F08d, fixed in the loader: must always hold now) *)
+   3 = no empty schema name reaches the tracker (F08d, fixed in the loader: must always hold now),
+   4 = tracker state is only dropped for the schema that is re-parsed next (must always hold) *)
 Definition guards (i : input) : list bool :=
-  [guard_F08a (i_md i) (i_tops i); guard_F08b (i_md i) (i_tops i); forallb names_truthy (i_tops i)].
+  [guard_F08a (i_md i) (i_tops i); guard_F08b (i_md i) (i_tops i); forallb (fun x => names_truthy (top_call x)) (i_tops i);
+   forallb fresh_ok (i_tops i)].
 
 Definition run (cases : list (input * obs)) : list N := report obs_eqb model_obs guards cases.
 
